@@ -77,6 +77,9 @@ pub struct Inner {
     pub rec_mem: bool,
     /// record site events
     pub rec_sites: bool,
+    /// record, per scheduling decision, the set of threads that could have been chosen (bounded-exhaustive exploration)
+    pub rec_alts: bool,
+    pub alts: Vec<u32>,
     /// threads run freely (no baton): hooks only record and check
     pub free_run: bool,
     /// yield also at Relaxed accesses and DEREFs? (tree restructuring)
@@ -201,6 +204,8 @@ impl Exec {
                 rec_steps: false,
                 rec_mem: false,
                 rec_sites: true,
+                rec_alts: false,
+                alts: vec![],
                 free_run: false,
                 yield_relaxed: true,
                 last_free_seq: alloc::free_seq(),
@@ -521,7 +526,8 @@ impl Exec {
 
 pub enum Strategy {
     /// explicit list of thread ids; fall back to the lowest runnable thread
-    List { steps: Vec<u8>, pos: usize, drift: u64 },
+    /// (sticky: once the list is used up, stay on the thread that ran last while it is runnable)
+    List { steps: Vec<u8>, pos: usize, drift: u64, sticky: bool, last: usize },
     Random(StdRng),
     /// PCT: priorities + `d` priority change points over an estimated length
     Pct { rng: StdRng, prio: Vec<i64>, change: Vec<u64>, low: i64 },
@@ -543,6 +549,8 @@ impl Strategy {
                     .unwrap_or_default(),
                 pos: 0,
                 drift: 0,
+                sticky: v.get("sticky").and_then(|s| s.as_bool()).unwrap_or(false),
+                last: usize::MAX,
             },
             "pct" => {
                 let mut rng = StdRng::seed_from_u64(seed);
@@ -578,15 +586,20 @@ impl Strategy {
 
     fn pick(&mut self, runnable: &[usize], nsteps: u64) -> usize {
         match self {
-            Strategy::List { steps, pos, drift } => {
+            Strategy::List { steps, pos, drift, sticky, last } => {
                 if *pos < steps.len() {
                     let want = steps[*pos] as usize;
                     *pos += 1;
                     if runnable.contains(&want) {
+                        *last = want;
                         return want;
                     }
                     *drift += 1;
                 }
+                if *sticky && runnable.contains(last) {
+                    return *last;
+                }
+                *last = runnable[0];
                 runnable[0]
             }
             Strategy::Random(rng) => runnable[rng.gen_range(0..runnable.len())],
@@ -640,7 +653,8 @@ impl Strategy {
     }
 
     pub fn advance(&mut self) {
-        if let Strategy::List { pos, .. } = self {
+        if let Strategy::List { steps, pos, last, .. } = self {
+            *last = steps[*pos] as usize;
             *pos += 1;
         }
     }
@@ -737,12 +751,28 @@ impl Exec {
             // replay follows the specification's order exactly); recorded schedules never do
             if let Some(want) = strat.wanted() {
                 if !runnable.contains(&want) && self.runnable_any(want) {
+                    {
+                        let mut g = self.m.lock().unwrap();
+                        if g.rec_alts && g.alts.len() < 100_000 {
+                            g.alts.push(1 << want);
+                        }
+                    }
                     strat.advance();
                     self.grant(want);
                     continue;
                 }
             }
             let t = strat.pick(&runnable, n);
+            {
+                let mut g = self.m.lock().unwrap();
+                if g.rec_alts && g.alts.len() < 100_000 {
+                    let mut mask = 0u32;
+                    for &r in &runnable {
+                        mask |= 1 << r;
+                    }
+                    g.alts.push(mask);
+                }
+            }
             self.grant(t);
         }
     }
